@@ -2,7 +2,8 @@
 Metamorphic twins: every enumerated constant expression is compiled in constant form
 (literals in place; also through a const local, a const global and a global initialiser) and
 in variable form (every literal replaced by a non-const local holding the same value); both
-are run on the VM and must print the same thing at every word size.  The reference
+are run on the VM and must print the same thing at every word size; so must the two mixed
+forms in which only the literals at even (odd) positions are variables.  The reference
 interpreter supplies the expected value, so that the report says which side is wrong.  An
 expression whose evaluation divides by zero is handled alone: its constant form may be
 rejected at compile time, otherwise it must fault like its variable form."""
@@ -146,13 +147,28 @@ def show(t, e):
     return f'writeln({e} is int);' if t == 'byte' else f'writeln({e});'
 
 
-def variable_form(t, e):
-    """Replace every literal of e by a fresh non-const local holding the same value."""
+def variable_form(t, e, pattern=None):
+    """Replace every literal of e by a fresh non-const local holding the same value; with pattern 0 / 1 only the
+    literals at even / odd positions are replaced (the compiler then knows one side of an operation and not the other)."""
     ast = parse_expr(e)
     decls = []
+    seen = [0]
+
+    def keep(x):
+        seen[0] += 1
+        return pattern is not None and (seen[0] - 1) % 2 != pattern
+
+    def lit_text(x):
+        if x[0] == 'int':
+            return str(x[1])
+        if x[0] == 'chr':
+            return "'\\x%02x'" % x[1]
+        return 'true' if x[1] else 'false'
 
     def walk(x):
         k = x[0]
+        if k in ('int', 'chr', 'bool') and keep(x):
+            return lit_text(x)
         if k == 'int':
             n = f'v{len(decls)}'
             decls.append(f'int {n} = {x[1]};')
@@ -368,6 +384,36 @@ def batch(st, batch_, W, k):
     st.add('traces_validated_against_impl', len(batch_))
     st.add('twins_equal', len(batch_))
     st.count('dims', f'W{W}', len(batch_))
+    # mixed forms: only the literals at even (odd) positions are variables
+    for pat in (0, 1):
+        msrc = 'empty @is_you() {\n' + '\n'.join('{ ' + variable_form(t, e, pat) + ' }' for t, e, _ in batch_) + '\n}\n'
+        rm, errm = run_lines(msrc, W)
+        if errm or rm.outcome != 'loop' or rm.output != rv.output:
+            for t, e, l in batch_:
+                mixed_single(st, t, e, W, l, pat)
+        else:
+            st.vm(rm)
+            st.add('mixed_forms_equal', len(batch_))
+
+
+def mixed_single(st, t, e, W, want, pat):
+    msrc = 'empty @is_you() {\n{ ' + variable_form(t, e, pat) + ' }\n}\n'
+    case = {'t': t, 'e': e, 'W': W, 'mode': 0, 'mixed': pat, 'want': want.decode('latin1')}
+    rm, errm = run_lines(msrc, W)
+    if errm:
+        try:
+            rtypes.elaborate(parse_program(msrc))
+        except (rtypes.Reject, rtypes.Unspecified):
+            st.add('mixed_forms_not_typable')
+            return
+        st.viol(f'W={W}: {e} with the literals at {"even" if pat == 0 else "odd"} positions replaced by variables is rejected ({errm[1][:80]}) although it is well-typed and '
+                f'evaluates to {want!r}', case, key=f'mixrej|{e}|{W}|{pat}')
+        return
+    if rm.outcome != 'loop' or rm.output != want:
+        st.viol(f'W={W}: {e} prints {rm.output!r} when the literals at {"even" if pat == 0 else "odd"} positions are replaced by variables holding the same values, but {want!r} '
+                f'when all or none are', case, key=f'mix|{e}|{W}|{pat}')
+        return
+    st.add('mixed_forms_equal')
 
 
 def single(st, t, e, W, want, mode=0):
@@ -494,10 +540,10 @@ def coverage(total, tier):
         'effects': f'{len(EFFECT_EXPRS)} expressions that are partly constant and partly effectful or faulting (array-literal length/index/truthiness with call or '
                    'faulting elements, x*0, short-circuit with constants, ?? of equal constants), compared with the reference interpreter on inputs z in 0,1',
         'cli': 'every 5th depth-1 expression over the reduced constants compiled through the real `python -m hidc -m<bits>` driver and run on the VM (W 2,3,4)',
-        'presentations': 'literal in place, const local, const global, non-const global initialiser (rotating); variable form: every literal in a non-const local',
+        'presentations': 'literal in place, const local, const global, non-const global initialiser (rotating); variable form: every literal in a non-const local; two mixed forms: only the literals at even / odd positions are variables',
         'word_sizes': '2,3,4',
     })
-    for k in ('twins_equal', 'faulting_expressions', 'rejected_at_compile_time'):
+    for k in ('twins_equal', 'mixed_forms_equal', 'mixed_forms_not_typable', 'faulting_expressions', 'rejected_at_compile_time'):
         cov[k] = total.get(k, 0)
     return cov
 
@@ -520,6 +566,9 @@ def replay(case):
         return [v['msg'] for v in st2.get('viol', [])]
     st = Stats()
     t, e, W = case['t'], case['e'], case['W']
+    if 'mixed' in case:
+        mixed_single(st, t, e, W, case['want'].encode('latin1'), case['mixed'])
+        return [v['msg'] for v in st.get('viol', [])]
     if case.get('fault'):
         single_fault(st, t, e, W)
     else:
